@@ -176,6 +176,11 @@ func (t *trio) settleVirtual(step, k int, amt int64) (errA, errB error) {
 			res <- [2]any{i, pr.ch.Settle(ctx, i == 1)}
 		}()
 		time.Sleep(t.s.Delay(fmt.Sprintf("driver:vsettle-gap:%d", step), 0, 300*time.Microsecond))
+		if ms := t.s.Sc.Cfg("vsettle_gap_ms", 0); ms > 0 && i == 0 {
+			// the second party settles only after the hub has given up waiting
+			// for a proposal matching the first one
+			time.Sleep(time.Duration(ms) * time.Millisecond)
+		}
 	}
 	for n := 0; n < 2; n++ {
 		r := <-res
